@@ -138,6 +138,21 @@ def has_var(desc):
     return any(has_var(d) for part in desc[1:] if isinstance(part, tuple) for d in part if isinstance(d, tuple))
 
 
+def var_defs(desc, out=None):
+    """name -> inner description of every variable of the tree (one definition per variable per tree)."""
+    out = {} if out is None else out
+    if desc[0] == "var":
+        out[desc[1]] = desc[2]
+        var_defs(desc[2], out)
+        return out
+    for part in desc[1:]:
+        if isinstance(part, tuple):
+            for d in part:
+                if isinstance(d, tuple) and d and isinstance(d[0], str):
+                    var_defs(d, out)
+    return out
+
+
 def allof_conjunct_disagreement(c, bound):
     """
     Classifier for the known finding: along the path infer() takes, an AllOf takes the attribute inferred by its first inferable conjunct
@@ -220,6 +235,10 @@ def check_tree(seed, case):
             return {"key": "C09/variables", "what": f"after accepting {a1}, {a2} accepted={got2}, the definition says {exp2}", "constraint": repr(desc), "inputs": inputs}
     # inference
     for bound in ({}, {"T": rnd.choice(attrs)}, {"T": rnd.choice(attrs), "U": rnd.choice(attrs)}):
+        # a context only ever holds bindings made by a successful verification: a bound value satisfies its variable's own constraint
+        defs = var_defs(desc)
+        if any(k in defs and not ref(defs[k], v, {}, attrs)[0] for k, v in bound.items()):
+            continue
         rc = ConstraintContext()
         for k, v in bound.items():
             rc.set_attr_variable(k, v)
